@@ -885,4 +885,4 @@ SELFTEST = [
 
 LEVEL_TEXT += ' Also (R6): typed bodies are decoded in one step from the raw bytes straight into the declared type (never through serde_json::Value, which merges duplicate keys); (R7 = C09.R2): each scalar is parsed as exactly its declared type, so out-of-range numbers are parse errors.'
 
-LEVEL_TEXT += " Also (R8 = C02.R5b): registration's scalar check covers every schema alternative, which keeps the decoder's panicking stubs unreachable; (R9): an unreadable Content-Type header is refused (400), the JSON default applies only when the header is absent. Also (R11 = C03.R1): a path segment whose escapes are not UTF-8 is refused by the strict decode; (R12 = C14.R4): a page_token parameter that is present is decoded as a token, only its absence selects the first page."
+LEVEL_TEXT += " Also (R8 = C02.R5b): registration's scalar check covers every schema alternative, which keeps the decoder's panicking stubs unreachable; (R9): an unreadable Content-Type header is refused (400), the JSON default applies only when the header is absent. Also (R11 = C03.R1): a path segment whose escapes are not UTF-8 is refused by the strict decode; (R12 = C14.R4): a page_token parameter that is present is decoded as a token, only its absence selects the first page. Also (R13 = C02.R5): registration accepts an endpoint only after every path / query parameter passed the scalar type check, whatever its visibility."
